@@ -6,7 +6,8 @@ sag-and-slope assemblies compute_z_zprime_Qbfs / _Qcon and the per-m slope terms
 import ast
 from pyexpr2lean import (Gen, Tr, Untranslatable, load, get_def, find_assign, find_assigns, find_returns,
                          find_calls, body_to_lean)
-from pysym import normalised_def, SymEx, canonical_locals, local_assigned_with, canon_cond, merge_paths, U as unp
+from pyexpr2lean import get_def as raw_def
+from pysym import normalised_def, float_entry_params, SymEx, canonical_locals, local_assigned_with, canon_cond, merge_paths, U as unp
 from gen_c10 import (norm, nenv, sub_assigns, for_loops, range_args, index_of, reads_of, tuple_unpack_calls,
                      returns_in_order, I, N, HDR, snorm, stmt_is, GenT, tri, alpha_norm, is_rebind, MATERIALISERS, iter_params_fact, q2d_sides)
 
@@ -357,7 +358,13 @@ def generate(repo):
             raise Untranslatable('jacobi_der: n == 0 / n == 1 / general paths not found')
         if norm(unp(zero[0].value)) != norm('np.zeros_like(x)'):
             raise Untranslatable('jacobi_der: order 0 does not return zeros')
-        one_val = Tr(nenv({'np.ones_like(x)': '(ofInt 1)', 'n': '(ofInt 1)', 'alpha': 'alpha', 'beta': 'beta'}), mode='num').expr(one[0].value)
+        one_node = one[0].value
+        if isinstance(one_node, ast.Call) and ast.unparse(one_node.func) in ('np.full_like', 'numpy.full_like') and len(one_node.args) == 2 \
+                and not one_node.keywords and ast.unparse(one_node.args[0]) == 'x' and 'x' in float_entry_params(raw_def(jac, 'jacobi_der')):
+            # a constant array shaped and typed like x: the constant itself, PROVIDED x was made floating point on entry (on an
+            # integer x the fill value would be truncated - obligation gen_no_coordinate_typed_fill)
+            one_node = ast.BinOp(left=ast.parse('np.ones_like(x)', mode='eval').body, op=ast.Mult(), right=one_node.args[1])
+        one_val = Tr(nenv({'np.ones_like(x)': '(ofInt 1)', 'n': '(ofInt 1)', 'alpha': 'alpha', 'beta': 'beta'}), mode='num').expr(one_node)
         val = gen[0].value
         if not (isinstance(val, ast.BinOp) and isinstance(val.op, ast.Mult)):
             raise Untranslatable('jacobi_der: the general order is not a product')
@@ -734,9 +741,20 @@ def generate(repo):
            f'{JAC}:jacobi_sum_clenshaw_der,jacobi_der_seq {QP}:clenshaw_qbfs_der,clenshaw_q2d_der,compute_z_zprime_Qbfs,compute_z_zprime_Qcon '
            f'{HER}:hermite_He_der_seq,hermite_H_der_seq {LAG}:laguerre_der_seq {ZER}:zernike_nm_der_seq', iter_fact)
 
+    COORDS = {'x', 'r', 't', 'u', 'usq'}
+
+    def converted_first(fn):
+        """coordinate parameters of fn that are re-bound to their floating-point copy before anything else reads them"""
+        conv = float_entry_params(fn)
+        out = set()
+        for c, k in conv.items():
+            if c in COORDS and not any(isinstance(n, ast.Name) and n.id == c for st in fn.body[:k] for n in ast.walk(st)):
+                out.add(c)
+        return out
+
     def fill_fact():
         # a constructor that takes its dtype from a coordinate array (np.full_like(x, v), np.full(shape, v, dtype=x.dtype)) and fills
-        # it with a computed value truncates that value on integer coordinates
+        # it with a computed value truncates that value on integer coordinates - unless the coordinates were made floating point first
         che, _ = load(repo, 'prysm/polynomials/cheby.py')
         leg, _ = load(repo, 'prysm/polynomials/legendre.py')
         fns = [(jac, 'jacobi_der'), (jac, 'jacobi_der_seq'), (her, 'hermite_He_der'), (her, 'hermite_H_der'), (her, 'hermite_He_der_seq'),
@@ -744,8 +762,8 @@ def generate(repo):
                (zer, 'zernike_nm_der_seq'), (leg, 'legendre_der'), (leg, 'legendre_der_seq')] + \
               [(che, f'cheby{k}_der{sfx}') for k in (1, 2, 3, 4) for sfx in ('', '_seq')]
         for mod, name in fns:
-            fn = get_def(mod, name)
-            coords = {a.arg for a in fn.args.args} & {'x', 'r', 't', 'u', 'usq'}
+            fn = raw_def(mod, name)
+            coords = ({a.arg for a in fn.args.args} & COORDS) - converted_first(fn)
             for c in ast.walk(fn):
                 if not isinstance(c, ast.Call):
                     continue
@@ -761,6 +779,37 @@ def generate(repo):
         return True
     g.fact('derRoutinesDoNotFillCoordinateTypedArraysWithComputedValues',
            f'{JAC}:jacobi_der,jacobi_der_seq {HER}:hermite_*_der(_seq) {LAG}:laguerre_der(_seq) {ZER}:zernike_nm_der(_seq) cheby.py legendre.py', fill_fact)
+
+    def float_fact():
+        # the routines that do arithmetic of their own on the coordinates (x - 1, 2 - 4 * x, 1 - usq, -x, x * x, cos(m * t), an integer
+        # recurrence) must re-bind every coordinate parameter to its floating-point copy before anything else reads it: in the
+        # caller's narrow or unsigned integer type those expressions overflow or wrap around.  true: all do; false: one reads a
+        # raw coordinate in an arithmetic expression / hands it to a value routine; unknown: some other shape
+        must = [(jac, 'jacobi_der'), (jac, 'jacobi_der_seq'), (her, 'hermite_He_der'), (her, 'hermite_H_der'), (her, 'hermite_He_der_seq'),
+                (her, 'hermite_H_der_seq'), (lag, 'laguerre_der'), (zer, 'zernike_nm_der'), (qp, 'clenshaw_qbfs_der'),
+                (qp, 'clenshaw_q2d_der'), (qp, 'compute_z_zprime_Qbfs'), (qp, 'compute_z_zprime_Q2d')]
+        unknown = False
+        for mod, name in must:
+            fn = raw_def(mod, name)
+            for c in sorted({a.arg for a in fn.args.args} & COORDS):
+                if c in converted_first(fn):
+                    continue
+                # not converted: is the raw coordinate used in arithmetic or handed to another routine?
+                used = False
+                for n in ast.walk(fn):
+                    if isinstance(n, (ast.BinOp, ast.UnaryOp, ast.AugAssign)) and any(
+                            isinstance(q, ast.Name) and q.id == c for q in ast.iter_child_nodes(n)):
+                        used = True
+                    if isinstance(n, ast.Call) and not ast.unparse(n.func).startswith(('np.result_type', 'np.asarray', 'np.shape', 'np.ndim')) \
+                            and any(isinstance(q, ast.Name) and q.id == c for q in list(n.args) + [k.value for k in n.keywords]):
+                        used = True
+                if used:
+                    return False
+                unknown = True
+        return None if unknown else True
+    g.fact('derRoutinesComputeOnFloatingPointCopiesOfTheirCoordinates',
+           f'{JAC}:jacobi_der,jacobi_der_seq {HER}:hermite_*_der(_seq) {LAG}:laguerre_der {ZER}:zernike_nm_der '
+           f'{QP}:clenshaw_qbfs_der,clenshaw_q2d_der,compute_z_zprime_Qbfs,compute_z_zprime_Q2d', float_fact)
 
     return g.finish()
 
